@@ -78,6 +78,13 @@ def build_program(p):
                 s.ensure(trees.mk(t, bv, iv))
             except trees.Unbuildable:
                 pass
+    elif p["kind"] == "many":
+        # many variables, all of them answer keys (request-side chunking / line-length handling)
+        vs = [s.bool_var() if k % 5 else s.int_var(0, 1) for k in range(p["nvars"])]
+        s.ensure(vs[1] | vs[2], ~vs[6], vs[0] == 1)
+        for k in range(7, p["nvars"] - 1, 9):
+            if k % 5 and (k + 1) % 5:
+                s.ensure(vs[k] == vs[k + 1])
     elif p["kind"] == "connected":
         g = G.Graph(p["n"])
         for u, v in p["edges"]:
@@ -244,6 +251,8 @@ def programs(tier, rng):
     for n, es in graphs_:
         for kind in ("connected", "division", "cycle", "borders"):
             out.append({"kind": kind, "n": n, "edges": es, "keymask": rng.randrange(1, 1 << 16)})
+    for nv in ((300,) if tier == "quick" else (257, 300, 1100)):
+        out.append({"kind": "many", "nvars": nv, "keymask": 0xFFFF})
     return out
 
 
